@@ -123,23 +123,24 @@ def setup (n : Node) (ws : List String) : Option (Node × String) :=
                       auxDur := ad, auxCd := ac }
       some ({ n with sws := n.sws ++ [x] }, "ok")
     | _, _, _, _, _, _, _, _ => some (n, "bad-op")
-  | ["addfolder", name, d, a, v, sd, sc, rd, rc] =>
-    match parseBool d, parseFsH a, parseFsH v, sd.toInt?, sc.toInt?, rd.toInt?, rc.toInt? with
-    | some d, some a, some v, some sd, some sc, some rd, some rc =>
+  | ["addfolder", name, d, a, v, sd, sc, rd, rc, dc, ds] =>
+    match parseBool d, parseFsH a, parseFsH v, sd.toInt?, sc.toInt?, rd.toInt?, rc.toInt?, dc.toNat?, ds.toNat? with
+    | some d, some a, some v, some sd, some sc, some rd, some rc, some dc, some ds =>
       if n.folders.any (·.name = name) then some (n, "dup") else
       let G : Folder := { name := name, deleted := d, actual := a, visible := v, scanDur := sd, scanCd := sc,
-                          restoreDur := rd, restoreCd := rc, files := [] }
-      some ({ n with folders := n.folders ++ [G] }, "ok")
-    | _, _, _, _, _, _, _ => some (n, "bad-op")
-  | ["addfile", F, name, a, v, d] =>
-    match parseFsH a, parseFsH v, parseBool d with
-    | some a, some v, some d =>
+                          restoreDur := rd, restoreCd := rc, files := [], delCtr := dc, delSeq := ds }
+      some ({ n with folders := n.folders ++ [G], fdelCtr := max n.fdelCtr ds }, "ok")
+    | _, _, _, _, _, _, _, _, _ => some (n, "bad-op")
+  | ["addfile", F, name, a, v, d, ds] =>
+    match parseFsH a, parseFsH v, parseBool d, ds.toNat? with
+    | some a, some v, some d, some ds =>
       match n.findFolder F with
       | none => some (n, "bad-op")
       | some G =>
         if G.files.any (·.name = name) then some (n, "dup") else
-        some (n.mapFolder F (fun G => { G with files := G.files ++ [{ name := name, actual := a, visible := v, deleted := d }] }), "ok")
-    | _, _, _ => some (n, "bad-op")
+        some (n.mapFolder F (fun G => { G with files := G.files ++
+          [{ name := name, actual := a, visible := v, deleted := d, delSeq := ds }] }), "ok")
+    | _, _, _, _ => some (n, "bad-op")
   | _ => none
 
 def step (d : DNode) (ws : List String) : DNode × String :=
